@@ -54,4 +54,15 @@ def runLogSeq (c : Case) (emit : Nat → String → IO Unit) : IO Unit := do
       | none => emit k "LV FAULT"
     | _ => emit k "ERR unknown-op"
 
+/-- The pool stream: what every terminating run must report (exactly-once, C10). -/
+def runPool (c : Case) (emit : Nat → String → IO Unit) : IO Unit := do
+  let mut k := 0
+  for op in c.ops do
+    k := k + 1
+    match op with
+    | ["pool", _n, t, _mode, _strategy, _seed] =>
+      let t := t.toNat?.getD 0
+      emit k s!"PL tasks={t} ran={t} maxcount={if t > 0 then 1 else 0} selfconcurrent=0 joined=1"
+    | _ => emit k "ERR unknown-op"
+
 end CSD.Driver
